@@ -234,6 +234,11 @@ def generate(rng, tier):
                 cs[deg] = 1.0
             yield solve_poly(cs, f'sparse-deg{deg}')
             yield solve_model(cs, f'sparse-deg{deg}')
+        # nearly pure cubics x^3 + e2 x^2 + e1 x = k (negligible depressed linear term): the one-root branch
+        k0 = rng.uniform(-5, 5) or 1.0
+        e2, e1 = rng.uniform(-1, 1) * 10.0 ** rng.randint(-9, -2), rng.uniform(-1, 1) * 10.0 ** rng.randint(-12, -3)
+        lead = rng.choice([1.0, -3.0, 879.0])
+        yield solve_poly([-k0 * lead, e1 * lead, e2 * lead, lead], 'nearly-pure-cubic')
         # double / triple roots and degenerate
         r = float(rng.randint(-9, 9))
         yield solve_poly([r * r, -2 * r, 1.0], 'double-root')
@@ -280,4 +285,36 @@ def quartic_overflow_leading(case, outs, verdict):
     return m > 1e140 * abs(co[4])
 
 
-KNOWN_CLASSES = {'cubic_small_leading': cubic_small_leading, 'quartic_overflow_leading': quartic_overflow_leading}
+def cubic_one_root_cancellation(case, outs, verdict):
+    """root cause: in the one-real-root branch solve_cubic forms t = cbrt(r + sq) + cbrt(r - sq); when the depressed linear coefficient d0 is negligible
+    (|d0|^3 < ~1e-10 r^2: the cubic is nearly x^3 = k) one of the two radicands is pure cancellation noise and the root comes out with a relative error of up
+    to ~3e-6 (the stable form takes the cube root of the larger radicand and obtains the other as -d0/u; that repair was tried and is exact to rounding, but
+    the crate's own test expects -2.0 for solve_cubic(2+1e-12,5,4,1), whose true root is -2.000000000001, with a strict 1e-12 bound, so the unedited suite
+    would fail).  The class: that regime, returned value within 1e-5 relative of the true root."""
+    import re
+    co = list(_coefs_of(case))
+    if len(co) == 5:
+        if co[4] == 0.0:
+            co = co[:4]
+        elif co[0] == 0.0:
+            co = co[1:]
+    if len(co) != 4 or co[3] == 0.0 or 'is not a root' not in verdict:
+        return False
+    c2, c1, c0 = co[2] / (3 * co[3]), co[1] / (3 * co[3]), co[0] / co[3]
+    d0 = c1 - c2 * c2
+    d1 = c0 - c1 * c2
+    d2 = c2 * c0 - c1 * c1
+    d = 4 * d0 * d2 - d1 * d1
+    de = -2 * c2 * d0 + d1
+    if not (d < 0 and abs(d0) ** 3 < 1e-10 * (0.5 * de) ** 2):
+        return False
+    m = re.search(r'returned value ([-0-9.e+]+) is not a root .*true root \[([^\]]*)\]', verdict)
+    if not m:
+        return False
+    x = float(m.group(1))
+    roots = [float(t) for t in m.group(2).split(',') if t.strip()]
+    return any(abs(x - r) <= 1e-5 * abs(r) for r in roots)
+
+
+KNOWN_CLASSES = {'cubic_small_leading': cubic_small_leading, 'quartic_overflow_leading': quartic_overflow_leading,
+                 'cubic_one_root_cancellation': cubic_one_root_cancellation}
